@@ -205,37 +205,43 @@ func runHistory(r *rand.Rand, nProd int, pool bool, undisciplined bool) (op, int
 			}
 		}(mine)
 	}
-	// scanner: expiry scans whose callback exports (snapshots) the record and resets its counters
-	wg.Add(1)
-	scanSeed := r.Int63()
-	go func() {
-		defer wg.Done()
-		rr := rand.New(rand.NewSource(scanSeed))
-		for i := 0; i < 2+rr.Intn(3); i++ {
-			perturb(rr)
-			time.Sleep(time.Duration(rr.Intn(300)) * time.Microsecond)
-			slow := rr.Intn(2) == 0
-			if rr.Intn(2) == 0 {
-				d := 1 + rr.Intn(4) // 3 or more: every flow's inactive deadline passes, the scan removes them all
-				inv := h.begin()
-				p.A.VerifShiftDeadlines(time.Duration(d) * agg.Unit)
-				h.end(op{"kind": "Advance", "d": d}, inv)
-			}
-			calls := []string{}
-			exports := []any{}
-			inv := h.begin()
-			err := p.A.ForAllExpiredFlowRecordsDo(func(k intermediate.FlowKey, rec *intermediate.AggregationFlowRecord) error {
-				n := agg.KeyName(k)
-				calls = append(calls, n)
-				exports = append(exports, exportProj(n, rec, p))
-				if slow { // a slow export: other callers queue up on the mutex meanwhile
-					time.Sleep(time.Duration(1+rr.Intn(3)) * time.Millisecond)
+	// scanners (one, sometimes two at once): expiry scans whose callback exports (snapshots) the record and resets its counters
+	nScan := 1
+	if r.Intn(3) == 0 {
+		nScan = 2
+	}
+	for sc := 0; sc < nScan; sc++ {
+		wg.Add(1)
+		scanSeed := r.Int63()
+		go func() {
+			defer wg.Done()
+			rr := rand.New(rand.NewSource(scanSeed))
+			for i := 0; i < 2+rr.Intn(3); i++ {
+				perturb(rr)
+				time.Sleep(time.Duration(rr.Intn(300)) * time.Microsecond)
+				slow := rr.Intn(2) == 0
+				if rr.Intn(2) == 0 {
+					d := 1 + rr.Intn(4) // 3 or more: every flow's inactive deadline passes, the scan removes them all
+					inv := h.begin()
+					p.A.VerifShiftDeadlines(time.Duration(d) * agg.Unit)
+					h.end(op{"kind": "Advance", "d": d}, inv)
 				}
-				return p.A.ResetStatAndThroughputElementsInRecord(rec.Record)
-			})
-			h.end(op{"kind": "Scan", "fail": []string{}, "calls": calls, "exports": exports, "err": err != nil}, inv)
-		}
-	}()
+				calls := []string{}
+				exports := []any{}
+				inv := h.begin()
+				err := p.A.ForAllExpiredFlowRecordsDo(func(k intermediate.FlowKey, rec *intermediate.AggregationFlowRecord) error {
+					n := agg.KeyName(k)
+					calls = append(calls, n)
+					exports = append(exports, exportProj(n, rec, p))
+					if slow { // a slow export: other callers queue up on the mutex meanwhile
+						time.Sleep(time.Duration(1+rr.Intn(3)) * time.Millisecond)
+					}
+					return p.A.ResetStatAndThroughputElementsInRecord(rec.Record)
+				})
+				h.end(op{"kind": "Scan", "fail": []string{}, "calls": calls, "exports": exports, "err": err != nil}, inv)
+			}
+		}()
+	}
 	// queries
 	for q := 0; q < 2; q++ {
 		wg.Add(1)
